@@ -22,6 +22,8 @@ PALETTE = {
     "String": [('"hi"', 'String::from("hi")'), ("String::new()", "String::new()"), ("'c'", "String::from('c')")],
     "W": [("7u8", "W::from(7u8)"), ("5", "W::from(5i32)"), ('"s"', 'W::from("s")'), ("true", "W::from(true)"),
           ("'c'", "W::from('c')"), ("1.5", "W::from(1.5f64)"), ("W(String::new())", "W(String::new())"), ('b"ab"', 'W::from(b"ab")')],
+    # reachable from a literal through a hand-written `Into` only (no `From`): the conversion the documentation promises is `Into`
+    "WI": [("5", "<i32 as Into<WI>>::into(5)"), ('"s"', '<&str as Into<WI>>::into("s")'), ("WI(String::new())", "WI(String::new())")],
     "L": [("L(2)", "L(2)")],
     "&'static [u8; 2]": [('b"ab"', 'b"ab"')],
 }
@@ -44,6 +46,9 @@ mod wtypes {
     impl From<char> for W { fn from(v: char) -> W { W(format!("char:{}", v)) } }
     impl From<f64> for W { fn from(v: f64) -> W { W(format!("f64:{}", v)) } }
     impl From<&[u8; 2]> for W { fn from(v: &[u8; 2]) -> W { W(format!("bytes:{:?}", v)) } }
+    #[derive(Debug, Default, Clone, PartialEq)] pub struct WI(pub String);
+    #[allow(clippy::from_over_into)] impl Into<WI> for i32 { fn into(self) -> WI { WI(format!("i32:{}", self)) } }
+    #[allow(clippy::from_over_into)] impl Into<WI> for &str { fn into(self) -> WI { WI(format!("str:{}", self)) } }
 }
 '''
 
